@@ -199,22 +199,22 @@ Fixpoint convert_to_string (orc : oracles) (base_tag : str) (ty : vtype) (v : va
              match r with (t, None) => Ok (t ++ [93], None) | (_, Some e) => Ok ([], Some e) end)
     end
   | TMap k vk, VMap _ l =>
-    bind (to_string_list (fun p => match p with
-                                   | VSlice _ [a; b] =>
-                                     bind (to_string_kind orc base_tag k a) (fun ra =>
-                                       match ra with
-                                       | (ta, None) =>
-                                         bind (to_string_kind orc base_tag vk b) (fun rb =>
-                                           match rb with
-                                           | (tb, None) => Ok (ta ++ [58] ++ tb, None)
-                                           | (_, Some e) => Ok ([], Some e)
-                                           end)
-                                       | (_, Some e) => Ok ([], Some e)
-                                       end)
-                                   | _ => Panic (s2l "ill-typed map entry")
-                                   end)
-                         (map (fun kv : value * value => VSlice false [fst kv; snd kv]) l) true [123]) (fun r =>
-      match r with (t, None) => Ok (t ++ [125], None) | (_, Some e) => Ok ([], Some e) end)
+    (* entries rendered as key:value, then sorted (sort.Strings) *)
+    (fix items (l : list (value * value)) (acc : list str) : res (str * option str) :=
+       match l with
+       | [] => Ok (s2l "{" ++ join (sort_strs acc) (s2l ", ") ++ s2l "}", None)
+       | (a, b) :: l' =>
+         bind (to_string_kind orc base_tag k a) (fun ra =>
+           match ra with
+           | (_, Some e) => Ok ([], Some e)
+           | (ta, None) =>
+             bind (to_string_kind orc base_tag vk b) (fun rb =>
+               match rb with
+               | (_, Some e) => Ok ([], Some e)
+               | (tb, None) => items l' (acc ++ [ta ++ [58] ++ tb])
+               end)
+           end)
+       end) l []
   | TFunc _ _, _ => Ok ([], None)
   | _, _ => Panic (s2l "ill-typed value")
   end.
